@@ -85,14 +85,31 @@ impl Cleaner {
     /// be leaked and the cleaning action will never be executed.
     #[inline]
     pub fn register(&self, action: impl FnOnce() + 'static) -> Cleanable {
-        let cc = {
-            // SAFETY: no reference to the Option already exists
-            let map = unsafe { &mut *self.cleaner_map.get() };
-
-            map.get_or_insert_with(|| Cc::new(CleanerMap {
+        // Cc::new may start a collection, which can run arbitrary code (finalizers, destructors, other cleaning
+        // actions), including calls to register on this same Cleaner. So, no reference to the Option can be kept
+        // alive while calling Cc::new, and the Option must be checked again after the Cc has been created
+        // SAFETY: no reference to the Option already exists
+        if unsafe { (*self.cleaner_map.get()).is_none() } {
+            let new_map = Cc::new(CleanerMap {
                 map: RefCell::new(SlotMap::with_capacity_and_key(3)),
-            }))
-        };
+            });
+
+            let unused_map = {
+                // SAFETY: no reference to the Option already exists
+                let map = unsafe { &mut *self.cleaner_map.get() };
+                if map.is_none() {
+                    *map = Some(new_map);
+                    None
+                } else {
+                    // The CleanerMap has already been created by a nested call to register
+                    Some(new_map)
+                }
+            };
+            drop(unused_map); // Always empty
+        }
+
+        // SAFETY: no mutable reference to the Option exists
+        let cc = unsafe { (*self.cleaner_map.get()).as_ref() }.expect("the CleanerMap has just been created");
 
         let map_key = cc.map.borrow_mut().insert(CleaningAction(Some(Box::new(action))));
 
